@@ -79,6 +79,37 @@ theorem euler_not_order2 : dotL euler.b euler.c ≠ 1/2 := by decide +kernel
 
 theorem euler_row_sums : Amul euler (ones euler) = euler.c := by decide +kernel
 
+/-! ### the glue between iterator and model does not change the method
+
+`rk4_viaModel` / `rk4_viaCoupler` are generated like `rk4`, but the recording callbacks are the
+`getdXdt` / `postProcess` of GenericModel subclasses with nested states, and the iterator is
+driven by `GenericModel.solve` (DESolver.solve, `_getdXdt`, `_updateX`, flattenX/unflattenX) and by
+a `Coupler` of 2 and of 3 differently shaped models (Coupler.getdXdt/getDt/correctdXdt/
+flattenX/unflattenX/postProcess): the time and state every (sub-)model receives. -/
+
+/-- a model solved with GenericModel.solve sees exactly the iterator's tableau -/
+theorem rk4_viaModel_eq : rk4_viaModel = rk4 := by decide +kernel
+
+theorem euler_viaModel_eq : euler_viaModel = euler := by decide +kernel
+
+/-- every sub-model of a Coupler (2 models, 3 models) sees exactly the iterator's tableau: in
+particular its right-hand side is evaluated at t, t+dt/2, t+dt/2, t+dt -/
+theorem rk4_viaCoupler_eq : rk4_viaCoupler = [rk4, rk4, rk4, rk4, rk4] := by decide +kernel
+
+theorem euler_viaCoupler_eq : euler_viaCoupler = [euler, euler, euler, euler, euler] := by decide +kernel
+
+/-- hence the order conditions and the documented stage times hold for what every coupled
+sub-model is integrated with -/
+theorem rk4_viaCoupler_order (T : Tableau ℚ) (h : T ∈ rk4_viaCoupler) :
+    OrderConditions4 T ∧ T.c = [0, 1/2, 1/2, 1] := by
+  rw [rk4_viaCoupler_eq] at h
+  simp only [List.mem_cons, List.mem_nil_iff, or_false, or_self] at h
+  subst h
+  exact ⟨rk4_order_conditions, rk4_stage_times⟩
+
+theorem rk4_viaModel_order : OrderConditions4 rk4_viaModel ∧ rk4_viaModel.c = [0, 1/2, 1/2, 1] := by
+  rw [rk4_viaModel_eq]; exact ⟨rk4_order_conditions, rk4_stage_times⟩
+
 /-! ### what one step computes, over any ordered field -/
 
 variable {α : Type} [Field α] [LinearOrder α] [IsStrictOrderedRing α]
